@@ -17,7 +17,7 @@ TRUSTED = ['binary64 treated as real arithmetic',
            'CPython executes the re-executed source (LoopCut, return / call-site tagging are the only transformations; print dropped)',
            'pointwise arrays: numpy elementwise operations act index by index; np.any(m) is true when m holds at some index (the generic index included)',
            'the sub-problem solver, linear_update / GMRES and the warm start are replaced by contracts that return arbitrary points / increments (their own properties: C01, C19)',
-           'the proxy of the constrained objective: total_residual(x) = [gradient of the augmented Lagrangian at (x, lam, kappa); Fischer-Burmeister(c(x), lam, kappa0)] as the class defines it (jit wiring read, not proved); its norm bounds each component',
+           'the proxy of the constrained objective used in the driver proof has the interface proved for the real classes in _constrained_objective_wiring (total_residual = [gradient of the augmented Lagrangian at the current (lam, kappa); Fischer-Burmeister(c, lam, kappa at construction)])',
            'use_newton_only=True never returns normally (proved: no return path); the multiplier-sign clause is not claimed for that debugging mode',
            'KKT lemma: stationarity bound combines the proved pieces with the triangle inequality (paper step, constants stated in the clause names)',
            '"for convex problems the returned point is the unique constrained minimiser" follows from approximate KKT + convexity (paper); exercised by the bounded stand-in against SLSQP',
@@ -67,6 +67,44 @@ def _fb_and_penalty(S):
               tm.and_(tm.eq(-ci * li + ki * ci * ci / 2, -li * li / (2 * ki)), tm.eq(-li + ki * ci, 0)))
         pen = lambda cc, ll, kk: tm.ite(ll >= kk * cc, -cc * ll + kk * cc * cc / 2, -ll * ll / (2 * kk))
         S.add(qq + '/value_is_objective_plus_sum_of_branch_penalties', hy, tm.eq(val, sum((pen(xs[i], ls[i], ks[i]) for i in range(n)), tm.ZERO)))
+
+
+def _constrained_objective_wiring(S):
+    """the real ConstrainedObjective / ConstrainedQuasiObjective constructors with uninterpreted objective and constraint functions:
+    gradient = grad_x of the augmented Lagrangian with the CURRENT multipliers and penalties, ncp = FB(c, lam, kappa at construction),
+    total_residual = [gradient ; ncp], constraint = c"""
+    import jax
+    import jax.numpy as jnp
+    from vt import jaxfront as J
+    from optimism import ConstrainedObjective as CO, Objective
+    n, m = 2, 2
+    x, lam, kap, kap0, lam0 = [J.sym_array(nm, (k,)) for nm, k in (('x', n), ('lam', m), ('kap', m), ('kap0', m), ('lam0', m))]
+    args = (x[0], x[1])
+    Fd = lambda *idx: tm.app(J.uf_name('f', tuple(sorted(idx))), args)
+    Cd = lambda j, *idx: tm.app(J.uf_name('c%d' % j, tuple(sorted(idx))), args)
+    for cls in (CO.ConstrainedObjective, CO.ConstrainedQuasiObjective):
+        q = 'ConstrainedObjective.%s' % cls.__name__
+        S.function(q + '.__init__', cls.__init__, 'J')
+        quasi = cls is CO.ConstrainedQuasiObjective
+        fobj = (lambda x_, l_, p: J.uf('f', x_[0], x_[1])) if quasi else (lambda x_, p: J.uf('f', x_[0], x_[1]))
+        cfun = lambda x_, p: jnp.stack([J.uf('c%d' % j, x_[0], x_[1]) for j in range(m)])
+
+        def fn(x_, lam_, kap_, kap0_, lam0_):
+            o = cls(fobj, cfun, x_, Objective.Params(), lam0_, kap0_)
+            o.lam, o.kappa = lam_, kap_            # multipliers / penalties updated after construction, as the solver does
+            return o.gradient(x_), o.ncp(x_), o.total_residual(x_), o.constraint(x_)
+        g, ncp, tot, c = [J.to_obj(t) for t in J.symbolic_call(fn, x, lam, kap, kap0, lam0)]
+        hy = [kap[j] > 0 for j in range(m)] + [kap0[j] > 0 for j in range(m)]
+        for j in range(m):
+            S.add(q + '.constraint/is_the_constraint_function[%d]' % j, hy, tm.eq(c[j], Cd(j)))
+            ck = Cd(j) * kap0[j]
+            S.add(q + '.ncp/is_fischer_burmeister_of_constraint_current_multiplier_and_construction_penalty[%d]' % j, hy,
+                  tm.eq(ncp[j], tm.sqrt(ck * ck + lam[j] * lam[j]) - ck - lam[j]))
+        for i in range(n):
+            want = Fd(i) - sum((tm.max_(lam[j] - kap[j] * Cd(j), tm.ZERO) * Cd(j, i) for j in range(m)), tm.ZERO)
+            S.add(q + '.gradient/is_objective_gradient_minus_multiplier_estimates_times_constraint_gradients_with_current_lam_and_kappa[%d]' % i, hy, tm.eq(g[i], want))
+        for k_ in range(n + m):
+            S.add(q + '.total_residual/is_gradient_stacked_on_ncp[%d]' % k_, hy, tm.eq(tot[k_], g[k_] if k_ < n else ncp[k_ - n]))
 
 
 def _bound_front_end(S):
@@ -571,6 +609,7 @@ def _kkt(S):
     l, k, c = tm.var('l'), tm.var('k'), tm.var('c')
     S.add(q + '/multiplier_estimate_differs_from_multiplier_by_the_complementarity_gap', [l >= 0, k > 0],
           tm.eq(tm.abs_(tm.max_(l - k * c, tm.ZERO) - l), tm.abs_(tm.min_(l, k * c))))
+    S.canary(q, [gg >= 0, pp >= 0, tol > 0, tm.sqrt(gg + pp + pi * pi) < tol])
 
 
 # ---------------------------------------------------------------------------
@@ -679,6 +718,7 @@ def bounded(S):
 def run(S):
     S.assume('named contract: "returns normally" means a return statement is reached; the NameError raised after max_al_iters is not a normal return')
     _fb_and_penalty(S)
+    _constrained_objective_wiring(S)
     _bound_front_end(S)
     _sub_step(S)
     for cfg in (dict(), dict(use_second_order_update=False), dict(updatePrecond=False)):
